@@ -352,9 +352,14 @@ def run_scenario(build, cause, end_at, chooser=None, role='initiator', peer_kw=N
             tco.TransmissionControlObject.__init__ = tco_init
             sch.hook = obs.hook
         ctx.after_term = sch.threading.Event()
+        ctx.term_started = sch.threading.Event()     # set when terminate() begins
+        ctx.llc = llc
+        if chooser is not None and hasattr(chooser, 'attach'):
+            chooser.attach(sch, llc, ctx)
         real_terminate = llc.terminate
 
         def terminate(reason):
+            ctx.term_started.set()
             ctx.term_begin = sch.step
             sch.note('term-begin', reason)
             if ctx.obs is not None:
